@@ -410,6 +410,17 @@ Theorem c04_exponent_panic_needs_huge_exponents : forall x y p,
 Proof. exact quorem_exponent_panic_needs_huge_exponents. Qed.
 Print Assumptions c04_exponent_panic_needs_huge_exponents.
 
+(* repeat: never more than 100000 characters; an over-limit request is an error value *)
+Theorem c04_repeat_result_bounded : forall t count s,
+  repeat_body t count = Ret (VText s) -> (zlen s <= max_repeat_length)%Z.
+Proof. exact repeat_body_bounded. Qed.
+Print Assumptions c04_repeat_result_bounded.
+
+Theorem c04_repeat_over_limit_is_error : forall t count,
+  t <> [] -> (max_repeat_length < zlen t * count)%Z -> repeat_body t count = Ret VErr.
+Proof. exact repeat_body_over_limit. Qed.
+Print Assumptions c04_repeat_over_limit_is_error.
+
 (* ---- work bounded by argument size + result size.  What is counted: the model's own loop for repeat (repeat_loop
    returns the number of cells it wrote: an instrumented execution, not a formula), and DECLARED costs for the
    big-integer primitives, which are atomic in Gallina: Decimal.rescale = digit cells of the coefficient + length
